@@ -213,6 +213,34 @@ theorem listKeysValid_cong : ∀ {s : Bool} (len : Nat) (l l' : List (Key × Nod
 
 /-! ### promotion followed by re-propagation (the tail of every composed merge) -/
 
+/-- the flags of a promoted node (`promotedFlags`): related when the flags handed in are related and, where the safe
+    flags are compared, the promoted nodes were equally safe -/
+theorem congF_promoted {m tO : Bool} {F F' of of' : Flags} (hF : congF m F F' = true) (hof : congF tO of of' = true)
+    (hmO : m = true → tO = true) : congF m (promotedFlags F of) (promotedFlags F' of') = true := by
+  cases m with
+  | false =>
+    rw [congF_iff] at hF ⊢
+    obtain ⟨h1, h2, h3, h4, h5, _⟩ := hF
+    refine ⟨?_, ?_, ?_, ?_, ?_, fun e => by cases e⟩ <;> (unfold promotedFlags; split <;> split <;> assumption)
+  | true =>
+    have ht : tO = true := hmO rfl
+    subst ht
+    have he := congF_eSafe hof
+    unfold promotedFlags
+    rw [← he]
+    split
+    · exact hF
+    · rw [congF_iff] at hF ⊢
+      obtain ⟨h1, h2, h3, h4, h5, h6⟩ := hF
+      exact ⟨h1, h2, h3, h4, h5, fun e => ⟨(h6 e).1, rfl⟩⟩
+
+theorem childMode_promoted {m : Bool} {F of : Flags} (h : (m && !uS (promotedFlags F of)) = true) :
+    (m && !uS F) = true := by
+  unfold promotedFlags at h
+  split at h
+  · exact h
+  · simp [uS] at h
+
 /-- `_maybe_promote` then `_propagate_implicit_values` -/
 def promoteThen (F : Flags) (K : CompKind) (CS : List (Key × Node)) (O : Node) : Except Err (Node × Bool) :=
   match maybePromote F K CS O with
@@ -258,17 +286,17 @@ theorem promoteThen_cong {m c tO : Bool} {F F' : Flags} (K : CompKind) {CS CS' :
     have adoptCase : ResRel m
         (match adoptAll of ok CS [] with
           | .error e => .error e
-          | .ok cs' => (.ok (propagate (.comp F ok cs'), false) : Except Err (Node × Bool)))
+          | .ok cs' => (.ok (propagate (.comp (promotedFlags F of) ok cs'), false) : Except Err (Node × Bool)))
         (match adoptAll of' ok CS' [] with
           | .error e => .error e
-          | .ok cs' => (.ok (propagate (.comp F' ok cs'), false) : Except Err (Node × Bool))) := by
+          | .ok cs' => (.ok (propagate (.comp (promotedFlags F' of') ok cs'), false) : Except Err (Node × Bool))) := by
       have ha := adoptAll_cong ok CS CS' [] [] hCS0 rfl hc hc' hp
       cases e1 : adoptAll of ok CS [] <;> cases e2 : adoptAll of' ok CS' [] <;> simp only [e1, e2, exRel] at ha
       · exact ha
       · rename_i x x'
         have hx := adoptAll_cons of ok CS [] x hc nil_cons e1
         have hx' := adoptAll_cons of' ok CS' [] x' hc' nil_cons e2
-        exact ⟨rfl, propagate_cong ok hF ha hx hx' (fun e => e)⟩
+        exact ⟨rfl, propagate_cong ok (congF_promoted hF hof hmO) ha hx hx' childMode_promoted⟩
     simp only [promoteThen, maybePromote]
     by_cases h1 : K.sameClass ok = true
     · simp only [h1, if_true]; exact base K
